@@ -204,7 +204,15 @@ class Taint:
                         pev = self.W.ev(parent.path)
                         for cbb, tt in parent.calls():
                             if fp in [c[3:] if c.startswith("fn:") else c for c in (tt.get("closures") or [])]:
-                                out |= self._union([a for a in pev.call_args(cbb) if not (isinstance(a, tuple) and a and a[0] == "closure")], depth)
+                                ops_ = [a for a in pev.call_args(cbb) if not (isinstance(a, tuple) and a and a[0] == "closure")]
+                                adaptor_ = tt["fn"].get("path", "")
+                                raw_ = any(x in pty for x in ("Vec<u8>", "[u8", "String", "str", "Box<[u8]>"))
+                                hook_ = getattr(self, "err_payloads_fn", None)
+                                if not raw_ and hook_ is not None and "result::Result" in adaptor_ and adaptor_.split("::")[-1].split("<")[0] in ("unwrap_or_else", "map_err", "or_else", "inspect_err"):
+                                    # the error side of a Result of a structured (crate-local) error type: what can be inside that error, variant-sensitively
+                                    # (the error of a call that *produces* the secret carries none of it)
+                                    ops_ = [e for a in ops_ for e in hook_(a)]
+                                out |= self._union(ops_, depth)
             # closures: captured variables
             if fn is not None and fn.kind == "closure" and i == 1:
                 parent = P.fns.get(fn.parent)
